@@ -3,7 +3,7 @@ import json, os
 from . import core, codec
 from .core import Outcome, Infra, log
 PID = 'C15'
-INVS = ['C15_NoPanic', 'C15_NoSilentAccept', 'C15_AcceptsValid', 'C15_RunRejects']
+INVS = ['C15_NoPanic', 'C15_NoSilentAccept', 'C15_AcceptsValid', 'C15_RunRejects', 'C15_RunDecodes']
 ALPHA = {0, 1, 2, 3, 4, 5, 7, 8, 12, 13, 255}
 
 
